@@ -12,7 +12,8 @@ pub fn run(run: &mut Run) {
     run.rule = "keyframe sets at distinct positions (n <= 8, sparse properties, per-keyframe easings, all timing kinds); \
         every insertion order for n <= 5 (quick) / n <= 6 (thorough), 500 random orders for larger n; each permuted \
         timeline is compared bit-for-bit with its ascending-order twin at segment interior points, keyframe positions \
-        and phase boundaries, and on its four metadata accessors; non-trivial = a non-identity permutation of >= 2 \
+        and phase boundaries, and on its four metadata accessors; plus eight `timeline!` sentences each written in 6 / 12 \
+        orders of their keyframes (from / to / N % keywords), compared the same way; non-trivial = a non-identity permutation of >= 2 \
         keyframes; distinct = (n, inversion-count bucket, sparse?, timing kind)"
         .into();
     run.assumptions = vec!["the ascending-order twin is the reference (its own correctness is C01's subject)".into()];
@@ -23,6 +24,9 @@ pub fn run(run: &mut Run) {
     let rc = run.replay_case();
     let verbose = rc.is_some();
     run.parallel(|w, nw, acc| {
+        if w == 0 && rc.map_or(true, |(s, _)| s == 2) {
+            macro_orders(acc);
+        }
         for i in my_cases(rc, STREAM, n, w, nw) {
             guarded(acc, "c11", STREAM, i, |acc| {
                 let mut r = Rng::derive(seed, STREAM, i);
@@ -31,6 +35,80 @@ pub fn run(run: &mut Run) {
             });
         }
     });
+}
+
+// ---- the same keyframes written in every order through `timeline!` (the macro decides nothing about order) ----
+
+macro_rules! tl_orders3 {
+    ($S:ident; [$($t:tt)*]; [$($a:tt)*] [$($b:tt)*] [$($c:tt)*]) => {
+        vec![
+            ("a b c", mina::timeline!($S $($t)* $($a)* $($b)* $($c)*)),
+            ("a c b", mina::timeline!($S $($t)* $($a)* $($c)* $($b)*)),
+            ("b a c", mina::timeline!($S $($t)* $($b)* $($a)* $($c)*)),
+            ("b c a", mina::timeline!($S $($t)* $($b)* $($c)* $($a)*)),
+            ("c a b", mina::timeline!($S $($t)* $($c)* $($a)* $($b)*)),
+            ("c b a", mina::timeline!($S $($t)* $($c)* $($b)* $($a)*)),
+        ]
+    };
+}
+macro_rules! tl_orders4 {
+    ($S:ident; [$($t:tt)*]; [$($a:tt)*] [$($b:tt)*] [$($c:tt)*] [$($d:tt)*]) => {
+        vec![
+            ("a b c d", mina::timeline!($S $($t)* $($a)* $($b)* $($c)* $($d)*)),
+            ("a d b c", mina::timeline!($S $($t)* $($a)* $($d)* $($b)* $($c)*)),
+            ("a d c b", mina::timeline!($S $($t)* $($a)* $($d)* $($c)* $($b)*)),
+            ("d a b c", mina::timeline!($S $($t)* $($d)* $($a)* $($b)* $($c)*)),
+            ("d c b a", mina::timeline!($S $($t)* $($d)* $($c)* $($b)* $($a)*)),
+            ("b a d c", mina::timeline!($S $($t)* $($b)* $($a)* $($d)* $($c)*)),
+            ("c d a b", mina::timeline!($S $($t)* $($c)* $($d)* $($a)* $($b)*)),
+            ("b d a c", mina::timeline!($S $($t)* $($b)* $($d)* $($a)* $($c)*)),
+            ("c a d b", mina::timeline!($S $($t)* $($c)* $($a)* $($d)* $($b)*)),
+            ("d b c a", mina::timeline!($S $($t)* $($d)* $($b)* $($c)* $($a)*)),
+            ("a c b d", mina::timeline!($S $($t)* $($a)* $($c)* $($b)* $($d)*)),
+            ("b c d a", mina::timeline!($S $($t)* $($b)* $($c)* $($d)* $($a)*)),
+        ]
+    };
+}
+
+fn macro_orders(acc: &mut Acc) {
+    use crate::shapes::{S1, S2, S4};
+    #[allow(unused_imports)]
+    use mina::prelude::*;
+    fn compare<S: Shape>(name: &str, tls: Vec<(&'static str, S::Tl)>, acc: &mut Acc) {
+        let (first_name, first) = (tls[0].0, &tls[0].1);
+        let mut times: Vec<f32> = (0..=96).map(|k| k as f32 / 16.0 - 0.5).collect();
+        times.extend_from_slice(&[0.3, 1.7, 2.9, 100.0]);
+        for (order, tl) in tls.iter().skip(1) {
+            for t in &times {
+                let (mut x, mut y) = (S::default(), S::default());
+                first.update(&mut x, *t);
+                tl.update(&mut y, *t);
+                acc.eval();
+                if x.all_bits() != y.all_bits() {
+                    acc.violation(
+                        "c11:macro-order",
+                        format!("timeline! sentence {name}: keyframes written in the order `{order}` give {:?} at t={t}, written as `{first_name}` they give {:?}", y.vals(), x.vals()),
+                        case_json(2, 0, vec![("sentence", J::s(name)), ("order", J::s(*order)), ("t", J::F(*t as f64))]),
+                    );
+                    return;
+                }
+            }
+            acc.eval();
+            if (first.delay().to_bits(), first.duration().to_bits(), first.cycle_duration().map(|c| c.to_bits()), first.repeat()) != (tl.delay().to_bits(), tl.duration().to_bits(), tl.cycle_duration().map(|c| c.to_bits()), tl.repeat()) {
+                acc.violation("c11:macro-order-meta", format!("timeline! sentence {name}: order `{order}` changes the timing accessors"), case_json(2, 0, vec![("sentence", J::s(name)), ("order", J::s(*order))]));
+                return;
+            }
+            acc.sig(format!("macro|{name}|{order}"));
+        }
+    }
+    compare::<S1>("S1 from/50%/to", tl_orders3!(S1; [2s after 0.5s]; [from { x: 1.0 }] [50% { x: 20.0 }] [to { x: 100.0 }]), acc);
+    compare::<S1>("S1 0%/25%/100% reversing", tl_orders3!(S1; [1s reverse 2x]; [0% { x: -5.0 }] [25% { x: 40.0 }] [100% { x: 8.0 }]), acc);
+    compare::<S1>("S1 to/25%/75% (no 0%)", tl_orders3!(S1; [4s]; [25% { x: 40.0 }] [75% { x: -10.0 }] [to { x: 80.0 }]), acc);
+    compare::<S2>("S2 from/10%/90% sparse", tl_orders3!(S2; [1s infinite]; [from { a: 3.0, b: 50 }] [10% { a: 30.0 }] [90% { b: 200 }]), acc);
+    compare::<S1>("S1 from/1%/to", tl_orders3!(S1; [2s]; [from { x: 0.0 }] [1% { x: 50.0 }] [to { x: 10.0 }]), acc);
+    compare::<S4>("S4 from/25%/75%/to", tl_orders4!(S4; [2s after 1s mina::Easing::OutQuad]; [from { a: 0.0, c: 10 }] [25% { a: 100.0, b: 5.0 }] [75% { a: -30.0, c: 400, d: 2.5 }] [to { a: 60.0, b: 9.0, c: -7, d: 0.5 }]), acc);
+    compare::<S2>("S2 from/0.5%/50%/to", tl_orders4!(S2; [1s 3x]; [from { a: 1.0 }] [0.5% { a: 64.0, b: 90 }] [50% { a: -64.0 }] [to { a: 2.0, b: 44 }]), acc);
+    compare::<S1>("S1 10%/20%/30%/to easing", tl_orders4!(S1; [8s reverse mina::Easing::InCubic]; [10% { x: 7.0 }] [20% { x: 70.0 }] [30% { x: -7.0 }] [to { x: 33.0 }]), acc);
 }
 
 fn permutations(n: usize, limit: usize, r: &mut Rng) -> Vec<Vec<usize>> {
